@@ -24,6 +24,7 @@ def main(tier):
     consumers.grid_depth(P, rep)
     consumers.base64_length(P, rep)
     consumers.grid_cartesian(P, rep)
+    consumers.option_loop_discipline(P, rep, "gwb-grid", "GRID.options")
     rep.assumptions.append("node placement and connectivity of the four grid generators are NOT decided "
                            "(index arithmetic and trigonometry over run-time sizes; DESIGN.md §4 C18)")
     rep.explanation = ("Layout agreement between gwb-grid's request list, the library's width table, the output offsets stored "
